@@ -272,6 +272,26 @@ func otherLayout(r *fw.Rand, l geom.Layout) geom.Layout {
 	}
 }
 
+// c02EmptyPart is a part without coordinates (for a MultiPolygon also a polygon
+// made only of empty rings).
+func c02EmptyPart(r *fw.Rand, kind model.Kind, layout geom.Layout) *model.G {
+	k := partKind(kind)
+	if kind == model.Collection {
+		k = gen.Kinds7[r.Intn(len(gen.Kinds7))]
+	}
+	g := &model.G{Kind: k, Layout: layout}
+	if k == model.Polygon && r.Chance(1, 3) {
+		g.C2 = make([][][]float64, r.Range(1, 3))
+	}
+	if k == model.MultiPolygon && r.Chance(1, 3) {
+		g.C3 = make([][][][]float64, r.Range(1, 2))
+	}
+	if k == model.MultiLineString && r.Chance(1, 3) {
+		g.C2 = make([][][]float64, r.Range(1, 2))
+	}
+	return g
+}
+
 func c02Part(r *fw.Rand, kind model.Kind, layout geom.Layout) *model.G {
 	cl := gen.AnyClass(r)
 	if kind == model.Collection {
@@ -304,16 +324,28 @@ func c02History(c *fw.Ctx, idx int) {
 		c.SetInput(map[string]any{"kind": kind.String(), "layout": layout.String(), "history": strings.Join(hist, "; ")})
 	}
 	pattern := ""
-	for s := 0; s < steps; s++ {
+	// one history in four pushes mostly empty parts (runs of empty parts are where
+	// offsets repeat and where slices stay empty while their capacity grows)
+	emptyBias := r.Chance(1, 4)
+	// after a Clone the next steps push non-empty parts to both geometries in turn
+	forcePush := 0
+	for s := 0; s < steps || forcePush > 0; s++ {
 		cur := a
 		if r.Chance(1, 5) {
 			cur = b
+		}
+		op := r.Intn(100)
+		if forcePush > 0 {
+			op = 0
+			cur = a
+			if forcePush%2 == 0 {
+				cur = b
+			}
 		}
 		name := "A"
 		if cur == b {
 			name = "B"
 		}
-		op := r.Intn(100)
 		switch {
 		case op < 55: // Push a matching part
 			pl := cur.m.Layout
@@ -324,6 +356,14 @@ func c02History(c *fw.Ctx, idx int) {
 				}
 			}
 			p := c02Part(r, kind, pl)
+			if forcePush > 0 {
+				for try := 0; try < 6 && p.IsEmpty(); try++ {
+					p = c02Part(r, kind, pl)
+				}
+				forcePush--
+			} else if emptyBias && r.Chance(3, 4) {
+				p = c02EmptyPart(r, kind, pl)
+			}
 			hist = append(hist, fmt.Sprintf("%s.Push(%s)", name, p))
 			setIn()
 			var err error
@@ -462,6 +502,10 @@ func c02History(c *fw.Ctx, idx int) {
 				return
 			}
 			c.Count("op_clone")
+			if cur.t.Empty() && len(pattern) > 0 {
+				c.Count("clone_of_geometry_made_of_empty_parts")
+			}
+			forcePush = 4
 		default:
 			hist = append(hist, name+".sweep")
 			setIn()
